@@ -302,7 +302,8 @@ macro_rules! flavour_impl {
                 let method = spec["method"].as_str().unwrap_or("none");
                 let mode = spec["mode"].as_str().unwrap();
                 let target: Option<K> = if spec["target"].is_null() { None } else { Some(*self.nodes[us(&spec["target"])].key()) };
-                let transpose = spec["transpose"].as_bool().unwrap_or(false);
+                let tcount: u64 = spec["transpose"].as_u64().unwrap_or(if spec["transpose"].as_bool().unwrap_or(false) { 1 } else { 0 });
+                let transpose = tcount > 0;
                 let repeat = spec.get("repeat").and_then(|r| r.as_bool()).unwrap_or(false);
                 let split = std::cell::Cell::new(usize::MAX);
                 let second: RefCell<Value> = RefCell::new(Value::Null);
@@ -350,7 +351,7 @@ macro_rules! flavour_impl {
                                 match step.as_str() {
                                     "prio" => $prio,
                                     "target" => { if let Some(t) = target.as_ref() { $s = $s.target(t); } }
-                                    "transpose" => { sel!($kind, { if transpose { $s = $s.transpose(); } }, {}); }
+                                    "transpose" => { sel!($kind, { for _ in 0..tcount { $s = $s.transpose(); } }, {}); }
                                     "method" => match method {
                                         "filter" => { if let Some(f) = filt_o.take() { $s = $s.filter(f); } }
                                         "foreach" => { if let Some(f) = fe_o.take() { $s = $s.for_each(f); } }
@@ -392,7 +393,7 @@ macro_rules! flavour_impl {
                             let mut s = root.pfs();
                             s = if spec["prio"].as_str() == Some("max") { s.max() } else { s.min() };
                             if let Some(t) = target.as_ref() { s = s.target(t); }
-                            sel!($kind, { if transpose { s = s.transpose(); } }, {});
+                            sel!($kind, { for _ in 0..tcount { s = s.transpose(); } }, {});
                             match method {
                                 "filter" => { s = s.filter(&mut filt); }
                                 "foreach" => { s = s.for_each(&mut fe); }
@@ -429,7 +430,8 @@ macro_rules! flavour_impl {
                 let script_obs: RefCell<Value> = RefCell::new(Value::Null);
                 let method = spec["method"].as_str().unwrap_or("none");
                 let pre = spec["kind"].as_str().unwrap() == "pre";
-                let transpose = spec["transpose"].as_bool().unwrap_or(false);
+                let tcount: u64 = spec["transpose"].as_u64().unwrap_or(if spec["transpose"].as_bool().unwrap_or(false) { 1 } else { 0 });
+                let transpose = tcount > 0;
                 let res: Value;
                 {
                     let script = spec.get("script").filter(|s| !s.is_null());
@@ -467,7 +469,7 @@ macro_rules! flavour_impl {
                         let method_first = spec.get("method_first").and_then(|b| b.as_bool()).unwrap_or(false);
                         let mut s = sel!($kind, {
                             { let mut s = if pre { root.preorder() } else { root.postorder() };
-                              if transpose && !method_first { s = s.transpose(); }
+                              if !method_first { for _ in 0..tcount { s = s.transpose(); } }
                               s }
                         }, {
                             { if method_first { root.order() } else if pre { root.order().pre() } else { root.order().post() } }
@@ -478,7 +480,7 @@ macro_rules! flavour_impl {
                             _ => {}
                         }
                         if method_first {
-                            sel!($kind, { if transpose { s = s.transpose(); } }, { s = if pre { s.pre() } else { s.post() }; });
+                            sel!($kind, { for _ in 0..tcount { s = s.transpose(); } }, { s = if pre { s.pre() } else { s.post() }; });
                         }
                         let keep = spec.get("keep").and_then(|k| k.as_str()).map(|k| k.to_string());
                         if spec["mode"].as_str().unwrap() == "nodes" {
